@@ -207,7 +207,27 @@ func init() {
 			case 1: // Equal on related pairs
 				a := c06Shape(c, 2)
 				var b orb.Geometry
-				switch c.rng.Intn(5) {
+				switch c.rng.Intn(6) {
+				case 5: // a box and the ring / polygon that has exactly that box (same GeoJSON type word, different kinds), either order
+					bb := orb.MultiPoint{{float64(c.rng.Intn(5)), float64(c.rng.Intn(5))}, {float64(5 + c.rng.Intn(4)), float64(5 + c.rng.Intn(4))}}.Bound()
+					if a != nil && c.rng.Intn(2) == 0 {
+						bb = a.Bound()
+					}
+					var other orb.Geometry
+					switch c.rng.Intn(4) {
+					case 0:
+						other = bb.ToPolygon()
+					case 1:
+						other = bb.ToRing()
+					case 2:
+						other = orb.Polygon{orb.Ring{bb.Min, bb.Max, bb.Min}} // another shape with the same box
+					default:
+						other = orb.Collection{bb}
+					}
+					a, b = bb, other
+					if c.rng.Intn(2) == 0 {
+						a, b = b, a
+					}
 				case 0:
 					b = orb.Clone(a)
 				case 1: // perturb one vertex of a copy
